@@ -1,6 +1,7 @@
 package rules
 
 import (
+	"os"
 	"fmt"
 	"go/constant"
 	"go/types"
@@ -190,9 +191,34 @@ func c14(c *Ctx) {
 			}
 			if hasNot && hasAge {
 				isSettle = true
+				if os.Getenv("WVSA_DEBUG") != "" {
+					fmt.Println("DEBUG settle-if block", b.Index, facts.Term(iff.Cond), "conj:", facts.Join(conj))
+				}
 			}
 		}
 		if !isSettle || len(b.Succs) != 2 {
+			continue
+		}
+		// tests inside the settle case inherit its guard as path facts: only the outermost one is
+		// the case itself
+		nested := false
+		for _, ob := range fn.Blocks {
+			if ob == b || len(ob.Succs) != 2 {
+				continue
+			}
+			// (inside the case, or further down the else-chain of the switch: both inherit the
+			// outer test's atoms as path facts of boolean phis)
+			if oiff, ok := ob.Instrs[len(ob.Instrs)-1].(*ssa.If); ok && ob.Dominates(b) {
+				for _, conj := range facts.DNF(oiff.Cond, true) {
+					for _, x := range conj {
+						if x.Atom == "!"+s+".settled" {
+							nested = true
+						}
+					}
+				}
+			}
+		}
+		if nested {
 			continue
 		}
 		nsettle++
